@@ -496,8 +496,11 @@ Theorem potential_call_sites : forall nf : nat, (1 <= nf)%nat ->
   axes_sel allSecond_y nf len = Some (seq 0 len) /\
   (sel (fst allSecond_hess) len, sel (snd allSecond_hess) len)
     = (Some (seq 0 nf), Some (seq 0 nf)) /\
-  (sel (fst allSecond_dgraddT) len, sel (snd allSecond_dgraddT) len)
-    = (Some [nf], Some (seq 0 nf)) /\
+  (* (T, fields) block, in either orientation: the Hessian stencil is symmetric *)
+  ((sel (fst allSecond_dgraddT) len, sel (snd allSecond_dgraddT) len)
+     = (Some [nf], Some (seq 0 nf)) \/
+   (sel (fst allSecond_dgraddT) len, sel (snd allSecond_dgraddT) len)
+     = (Some (seq 0 nf), Some [nf])) /\
   (sel (fst allSecond_d2VdT2) len, sel (snd allSecond_d2VdT2) len)
     = (Some [nf], Some [nf]) /\
   order_ok derivT_order /\ order_ok derivField_order /\ order_ok deriv2FieldT_order /\
